@@ -256,6 +256,9 @@ func GetAttr(v Value, attr Value, args ...Value) (Value, error) {
 	case reflect.Struct:
 		strval := CoerceString(attr)
 		retval = r.FieldByName(strval)
+		if retval.IsValid() && !retval.CanInterface() {
+			return nil, fmt.Errorf("getattr: unable to access unexported field \"%s\" on \"%v\"", strval, v)
+		}
 		if !retval.IsValid() {
 			var err error
 			retval, err = getMethod(v, strval)
@@ -264,27 +267,42 @@ func GetAttr(v Value, attr Value, args ...Value) (Value, error) {
 			}
 		}
 	case reflect.Map:
-		retval = r.MapIndex(reflect.ValueOf(attr))
+		if key, ok := mapKey(attr, r.Type().Key()); ok {
+			retval = r.MapIndex(key)
+		}
 	case reflect.Slice, reflect.Array:
-		index := int(CoerceNumber(attr))
-		if index >= 0 && index < r.Len() {
-			retval = r.Index(index)
+		if index, ok := indexNumber(attr); ok && index >= 0 && index < float64(r.Len()) {
+			retval = r.Index(int(index))
 		}
 	}
 	if !retval.IsValid() {
-		return nil, fmt.Errorf("getattr: unable to locate attribute \"%s\" on \"%v\"", attr, v)
+		return nil, fmt.Errorf("getattr: unable to locate attribute \"%v\" on \"%v\"", attr, v)
 	}
 	if retval.Kind() == reflect.Func {
+		if retval.IsNil() {
+			return nil, fmt.Errorf("getattr: attribute \"%v\" on \"%v\" is a nil func", attr, v)
+		}
 		t := retval.Type()
 		if t.NumOut() > 1 {
 			return nil, fmt.Errorf("getattr: multiple return values unsupported, called method \"%s\" on \"%v\"", attr, v)
 		}
-		rargs := make([]reflect.Value, len(args))
-		for k, v := range args {
-			rargs[k] = reflect.ValueOf(v)
+		numIn := t.NumIn()
+		if (!t.IsVariadic() && numIn != len(args)) || (t.IsVariadic() && len(args) < numIn-1) {
+			return nil, fmt.Errorf("getattr: method \"%s\" on \"%v\" expects %d parameter(s), %d given", attr, v, numIn, len(args))
 		}
-		if t.NumIn() != len(rargs) {
-			return nil, fmt.Errorf("getattr: method \"%s\" on \"%v\" expects %d parameter(s), %d given", attr, v, t.NumIn(), len(rargs))
+		rargs := make([]reflect.Value, len(args))
+		for k, arg := range args {
+			pt := t.In(numIn - 1)
+			if t.IsVariadic() && k >= numIn-1 {
+				pt = pt.Elem()
+			} else {
+				pt = t.In(k)
+			}
+			rarg, ok := callArg(arg, pt)
+			if !ok {
+				return nil, fmt.Errorf("getattr: method \"%s\" on \"%v\": cannot use argument %d (%T) as %s", attr, v, k+1, arg, pt)
+			}
+			rargs[k] = rarg
 		}
 		res := retval.Call(rargs)
 		if len(res) == 0 {
@@ -293,6 +311,95 @@ func GetAttr(v Value, attr Value, args ...Value) (Value, error) {
 		retval = res[0]
 	}
 	return retval.Interface(), nil
+}
+
+func isNumberKind(k reflect.Kind) bool {
+	switch k {
+	case reflect.Int, reflect.Int8, reflect.Int16, reflect.Int32, reflect.Int64,
+		reflect.Uint, reflect.Uint8, reflect.Uint16, reflect.Uint32, reflect.Uint64,
+		reflect.Float32, reflect.Float64:
+		return true
+	}
+	return false
+}
+
+// indexNumber returns the number denoted by attr, if attr is a number or a
+// numeric string; anything else cannot be used as an index.
+func indexNumber(attr Value) (float64, bool) {
+	if sv, ok := attr.(SafeValue); ok {
+		attr = sv.Value()
+	}
+	if attr == nil {
+		return 0, false
+	}
+	if s, ok := attr.(string); ok {
+		f, err := strconv.ParseFloat(s, 64)
+		return f, err == nil && !math.IsNaN(f)
+	}
+	if isNumberKind(reflect.TypeOf(attr).Kind()) {
+		f := CoerceNumber(attr)
+		return f, !math.IsNaN(f)
+	}
+	return 0, false
+}
+
+// convertNumber converts the number held by v to typ, which must be of a
+// numeric kind. It fails if the value changes in the conversion.
+func convertNumber(v reflect.Value, typ reflect.Type) (reflect.Value, bool) {
+	res := v.Convert(typ)
+	if back := res.Convert(v.Type()); back.Interface() != v.Interface() {
+		return reflect.Value{}, false
+	}
+	return res, true
+}
+
+// mapKey returns attr as a value that can be used to index a map with keys of
+// type typ: attr itself if it is of that type, otherwise a number for a map
+// with numeric keys or the string form of a scalar for a map with string keys.
+func mapKey(attr Value, typ reflect.Type) (reflect.Value, bool) {
+	if sv, ok := attr.(SafeValue); ok {
+		attr = sv.Value()
+	}
+	if attr == nil {
+		if typ.Kind() == reflect.Interface {
+			return reflect.Zero(typ), true
+		}
+		return reflect.Value{}, false
+	}
+	av := reflect.ValueOf(attr)
+	if av.Type().AssignableTo(typ) {
+		return av, av.Type().Comparable()
+	}
+	switch {
+	case typ.Kind() == reflect.String:
+		if k := av.Kind(); isNumberKind(k) || k == reflect.Bool {
+			return reflect.ValueOf(CoerceString(attr)).Convert(typ), true
+		}
+	case isNumberKind(typ.Kind()):
+		if f, ok := indexNumber(attr); ok {
+			return convertNumber(reflect.ValueOf(f), typ)
+		}
+	}
+	return reflect.Value{}, false
+}
+
+// callArg returns arg as a value that can be passed for a parameter of type typ.
+func callArg(arg Value, typ reflect.Type) (reflect.Value, bool) {
+	if arg == nil {
+		switch typ.Kind() {
+		case reflect.Ptr, reflect.Interface, reflect.Slice, reflect.Map, reflect.Func, reflect.Chan:
+			return reflect.Zero(typ), true
+		}
+		return reflect.Value{}, false
+	}
+	av := reflect.ValueOf(arg)
+	if av.Type().AssignableTo(typ) {
+		return av, true
+	}
+	if isNumberKind(av.Kind()) && isNumberKind(typ.Kind()) {
+		return convertNumber(av, typ)
+	}
+	return reflect.Value{}, false
 }
 
 func getMethod(v Value, name string) (reflect.Value, error) {
